@@ -206,6 +206,7 @@ func (s *spy) Exec(ctx context.Context, qCtx *query_context.Context) error {
 // have arrived; queries without a response (a miss, a lazy update) pass. It
 // never touches the context.
 type Rendezvous struct {
+	All     bool // hold every query, not only those that come with a response
 	mu      sync.Mutex
 	need    int
 	arrived int
@@ -214,7 +215,7 @@ type Rendezvous struct {
 }
 
 func NewRendezvous() *Rendezvous {
-	return &Rendezvous{need: 1, release: make(chan struct{}), Arrived: make(chan struct{}, 16)}
+	return &Rendezvous{need: 1, release: make(chan struct{}), Arrived: make(chan struct{}, 4096)}
 }
 
 func (r *Rendezvous) Reset(need int) {
@@ -227,7 +228,7 @@ func (r *Rendezvous) Reset(need int) {
 }
 
 func (r *Rendezvous) Exec(_ context.Context, qCtx *query_context.Context) error {
-	if qCtx.R() == nil {
+	if qCtx.R() == nil && !r.All {
 		return nil
 	}
 	r.mu.Lock()
